@@ -349,7 +349,9 @@ func H18Twice() {
 func H18Bootstrap() {
 	conf := []float64{0.9, 0.95}[vndParam("conf")]
 	N := vndParam("resamples")
-	opts := []float64{16, 32}
+	// scale: measurements of ordinary size, very small ones (a custom metric) and very large ones
+	scale := []float64{1, 1e-14, 1e14}[vndParam("scale")]
+	opts := []float64{16 * scale, 32 * scale}
 	var vals [2][2][2]float64 // benchmark, role (0 numerator), index
 	for b := 0; b < 2; b++ {
 		for r := 0; r < 2; r++ {
